@@ -30,6 +30,7 @@ def populate(tmp, cls, hash_name):
 def run():
     reps = []
     for cls, hash_name, shallow, dry, ro, only_dirs in itertools.product((HashFileDB, LocalHashFileDB), (None, "md5-dos2unix"), (True, False), (True, False), (False, True), (False, True)):
+      for used_kind in ("list", "set", "generator"):
         with tempfile.TemporaryDirectory(dir="/var/tmp") as tmp:
             odb, objs = populate(tmp, cls, hash_name)
             d = objs["d"]
@@ -47,8 +48,11 @@ def run():
                 cache = cls(LocalFileSystem(), odb.path, **({"hash_name": hash_name} if hash_name else {}))
                 odb.read_only = True
             rep = {"cls": cls.__name__, "hash_name": hash_name, "shallow": shallow, "dry": dry, "read_only_store_with_writable_cache_odb": ro, "garbage_is_directory_objects_only": only_dirs}
+            # the signature promises an Iterable: a list, a set, or a one-shot iterator (generator) of ids
+            used_arg = {"list": list(used), "set": set(used), "generator": (h for h in list(used))}[used_kind]
+            rep["used_given_as"] = used_kind
             try:
-                n = gc(odb, used, cache_odb=cache, shallow=shallow, dry=dry)
+                n = gc(odb, used_arg, cache_odb=cache, shallow=shallow, dry=dry)
                 after = set(odb.all())
                 if ro:
                     rep["violation"] = "read-only store was not refused"
